@@ -1241,7 +1241,9 @@ func genCase(r *hx.Rand, tier string) caseT {
 			if r.Chance(1, 18) && kinds[i] != "static" && kinds[i] != "content" && kinds[i] != "env" { // those cannot be made to fail
 				s.Fail = true
 			}
-			if kinds[i] == "map" && i < nsrc-1 && r.Chance(1, 40) {
+			if kinds[i] == "map" && r.Chance(1, 30) {
+				// cancelling while the last source is read comes too late to stop the Load: it must still
+				// either fail untouched or succeed completely (as the code stands: succeed)
 				s.Cancel = true
 			}
 			ld.Srcs = append(ld.Srcs, s)
@@ -1407,6 +1409,11 @@ func fixedCases() []caseT {
 		{Bound: true, Keys: []string{"since"}, Loads: []loadT{
 			one(m("since", "2024-01-02T03:04:05Z", "wait", "2h", "meta", m("owner", "me"))),
 			one(m("name", "x")),
+		}},
+		// the context is cancelled while the last source is read: too late, the Load goes through
+		{Bound: true, Keys: []string{"name"}, Loads: []loadT{
+			one(m("name", "first")),
+			{Srcs: []srcT{{Kind: "map", M: m("name", "second", "level", "info"), Cancel: true}}},
 		}},
 		// the context is cancelled while the first source is read
 		{Keys: []string{"a"}, Loads: []loadT{
